@@ -1,10 +1,3 @@
-import SV.Driver.Util
-/- svdriver_c15: line protocol for the C15 model (stub until the model is built). -/
-namespace SV.Driver.C15
-
-def step (s : Unit) : List String → Unit × String
-  | _ => (s, "bad-op")
-
-end SV.Driver.C15
-
-def main : IO Unit := SV.Driver.loop SV.Driver.C15.step ()
+import SV.Driver.LazyReadStep
+/- svdriver_c15: line protocol of the C15 model (shared with C02, see SV/Driver/LazyReadStep.lean). -/
+def main : IO Unit := SV.Driver.loop SV.Driver.LazyRead.step {}
